@@ -228,6 +228,25 @@ theorem dictionary_merge_same_rows (hash : Option Bytes → Nat) (maxKey : Nat) 
 example : (Dict.mk [some 0, some 1, none, some 2] [none, some [], some [120]]).decode
     = [none, some [], none, some [120]] := by decide
 
+/-! ### concat of List / LargeList / Map arrays -/
+
+/-- **`concat_lists` / `concat_maps`: the concatenated child is exactly the concatenation of each
+input's referenced child range** `child[offsets[0] .. offsets.last()]` — whether or not the
+re-slicing branch is taken.  The branch may only be skipped when NO input has a non-zero first
+offset AND NO input has child rows past its last offset (both halves of `list_has_slices` /
+`map_has_slices`, T-tied by `SH_CONCAT_LISTS_SLICES` / `SH_CONCAT_MAPS_SLICES`). -/
+theorem concat_lists_child_ranges (ls : List BArr) (hw : ∀ l ∈ ls, l.WF) :
+    (concatLists ls).data = (ls.map referencedChild).flatten :=
+  concatLists_child ls hw
+
+/-- **`concat_lists` / `concat_maps` preserve every row**: reading the rebuilt offsets
+(`from_lengths` of all slot lengths) against the concatenated child gives the slot values of the
+inputs, in order — for head slices with unused trailing child rows, tail / middle slices, empty
+inputs and arrays whose offsets do not start at 0, in any position. -/
+theorem concat_lists_rows (ls : List BArr) (hw : ∀ l ∈ ls, l.WF) :
+    (concatLists ls).slots = (ls.map BArr.slots).flatten :=
+  concatLists_slots ls hw
+
 /-! ### shape ties -/
 
 /-- **T-tie for the guards and expressions the models mirror** (tools/items/C03.py `SHAPES`): the
@@ -235,7 +254,8 @@ coalescer's loop / finish / bypass / fit / sparse-copy guards, `default_strategy
 side conditions, `All => slice(0, count)`, the predicate-length guard, `values & validity`,
 `count - popcount`, the `+ offset` of every `filter_bits` arm, the `FilterBytes` copies,
 `take_nulls`/`take_native`/`check_bounds`, the FixedSizeList bounds test, `nullif`'s `l & !r`,
-`shift`'s guard, the interner comparison and the byte-builder offset shift are still written
+`shift`'s guard, the interner comparison, the byte-builder offset shift and the slice conditions /
+child ranges / offset lengths of `concat_lists` and `concat_maps` are still written
 the way `Model.lean` models them.  An edit of any of them makes the item LOST and this lemma
 stop checking. -/
 theorem selection_shapes_intact :
@@ -269,7 +289,15 @@ theorem selection_shapes_intact :
     Generated.C03.SH_NULLIF_RIGHT_lost = false ∧
     Generated.C03.SH_SHIFT_GUARD_lost = false ∧
     Generated.C03.SH_INTERNER_CMP_lost = false ∧
-    Generated.C03.SH_CONCAT_BYTES_SHIFT_lost = false := ⟨rfl, rfl, rfl, rfl, rfl, rfl, rfl, rfl, rfl, rfl, rfl, rfl, rfl, rfl, rfl, rfl, rfl, rfl, rfl, rfl, rfl, rfl, rfl, rfl, rfl, rfl, rfl, rfl, rfl, rfl, rfl⟩
+    Generated.C03.SH_CONCAT_LISTS_SLICES_lost = false ∧
+    Generated.C03.SH_CONCAT_MAPS_SLICES_lost = false ∧
+    Generated.C03.SH_CONCAT_LISTS_RANGE_lost = false ∧
+    Generated.C03.SH_CONCAT_MAPS_RANGE_lost = false ∧
+    Generated.C03.SH_CONCAT_LISTS_BRANCH_lost = false ∧
+    Generated.C03.SH_CONCAT_MAPS_BRANCH_lost = false ∧
+    Generated.C03.SH_CONCAT_LISTS_LENGTHS_lost = false ∧
+    Generated.C03.SH_CONCAT_MAPS_LENGTHS_lost = false ∧
+    Generated.C03.SH_CONCAT_BYTES_SHIFT_lost = false := ⟨rfl, rfl, rfl, rfl, rfl, rfl, rfl, rfl, rfl, rfl, rfl, rfl, rfl, rfl, rfl, rfl, rfl, rfl, rfl, rfl, rfl, rfl, rfl, rfl, rfl, rfl, rfl, rfl, rfl, rfl, rfl, rfl, rfl, rfl, rfl, rfl, rfl, rfl, rfl⟩
 
 /-! ### batch coalescer -/
 
